@@ -142,6 +142,12 @@ for _k, _found in {"C01": {**L0_FIELD_CORE, **L0_SCALAR}, "C02": {**L0_FIELD_COR
                    "C14": L0_FIELD_CORE, "C15": {**L0_FIELD_CORE, **L0_SCALAR}}.items():
     PROPS[_k]["theorems"] = {**IR_CORE, **_found, **PROPS[_k]["theorems"]}
     PROPS[_k]["gens"] = sorted(set(PROPS[_k].get("gens") or []) | {"go2ir"})
+    # … and the independent value-level streams of that arithmetic (field API; scalar API where scalars are involved)
+    _have = {x[0] for x in PROPS[_k]["streams"]}
+    if "F2" not in _have:
+        PROPS[_k]["streams"] = PROPS[_k]["streams"] + [("F2", 1500)]
+    if _found is not L0_FIELD_CORE and _found is not L0_FIELD and "S1" not in _have:
+        PROPS[_k]["streams"] = PROPS[_k]["streams"] + [("S1", 1200)]
 NOT_YET = {}
 for _k, _c in PROPS.items():
     assert _c.get("configs_quick") and _c.get("configs_thorough"), "property %s lacks a configuration list" % _k
